@@ -19,7 +19,8 @@ let parse_wspec (s : string) =
             { cname = n; ctyp = (if nl then String.sub t 0 (String.length t - 1) else t); cnullable = nl }
         | _ -> failwith "bad-coldef") (split_on ',' defs) in
       let table = List.map (fun rg ->
-        List.map (fun ch -> if ch = "" then [] else List.map (fun pg -> split_on '.' pg) (split_on '/' ch))
+        (* a chunk without pages is "", an empty page (no values) is "" between the page separators *)
+        List.map (fun ch -> if ch = "" then [] else List.map (fun pg -> if pg = "" then [] else split_on '.' pg) (split_on '/' ch))
           (split_on ';' rg)) (split_on '|' rgs) in
       (* "<codec>" or "<codec>d" (d: values are dictionary encoded, i.e. not PLAIN) *)
       let plain = not (String.length codec > 0 && codec.[String.length codec - 1] = 'd') in
